@@ -233,7 +233,7 @@ async def setup(hidden_expunge=False, msgs=None, backend='dict'):
         c = await w.client('c')
     else:
         from .imapdrv import MaildirWorld
-        w = await MaildirWorld(layout='++').start()
+        w = await MaildirWorld(layout='++', time_budget=30.0).start()
         c = await w.client('c', user=b'alice', pw=b'apass')
     await c.cmd(b'CREATE Box')
     raws = []
